@@ -145,10 +145,8 @@ def replay(ctx, path):
     rp = json.load(open(path))
     case = rp["case"]
     if case.get("race"):
-        c2 = vp.Ctx(ctx.id, ctx.tier, ctx.seed, replay=path)
-        c2.out = ctx.out
-        race_run(c2, case.get("rounds", 50))
-        bad = any(c["key"] == rp["key"] for c in c2.cands)
+        race_run(ctx, case.get("rounds", 50))
+        bad = any(c["key"] == rp["key"] for c in ctx.cands)
     elif "event" in case:
         ev = case["event"]
         if ev.get("ev") == "pkt":
